@@ -8,6 +8,7 @@ import (
 	"hop.computer/hop/authgrants"
 	"hop.computer/hop/keys"
 	"hop.computer/hop/transport"
+	"hop.computer/hop/tubes"
 )
 
 // Hooks for the simulation harness (file added by -overlay; not in the repository).
@@ -23,6 +24,18 @@ func (s *HopServer) VerifSetFS(f fs.FS) { s.fsystem = f }
 // VerifGrantCount returns the number of stored grants for (user, key).
 func (s *HopServer) VerifGrantCount(user string, key keys.DHPublicKey) int {
 	return s.agMap.VerifCount(user, key)
+}
+
+// VerifAuthGrantTubeOpeners returns, for every live session, the function the server itself
+// uses to open an authorization-grant tube towards that session's client.
+func (s *HopServer) VerifAuthGrantTubeOpeners() []func() (*tubes.Reliable, error) {
+	s.sessionLock.Lock()
+	defer s.sessionLock.Unlock()
+	var out []func() (*tubes.Reliable, error)
+	for _, sess := range s.sessions {
+		out = append(out, sess.newAuthGrantTube)
+	}
+	return out
 }
 
 var _ = authgrants.Shell
